@@ -172,7 +172,7 @@ def shift_amounts_small(case):
     return True
 
 
-def l1(ctx):
+def l1_prepare(ctx):
     rng = ctx.rng
     n = ctx.n(250, 3000)
     cases, meta, vcases, vmeta, dis = [], [], [], [], []
@@ -210,7 +210,14 @@ def l1(ctx):
             "match c with (vs, os, w, ext, v) => match pack_bitlist vs os w with Some ops => "
             "(pack_result w (fun i => nth i ext 0) ops =? v) && (pack_spec w (fun i => nth i ext 0) vs os =? v) "
             "| None => false end end) cases_val."]
-    ok, out = vlib.coq_eval("c19pack", "\n".join(text) + "\n", timeout=600)
+    def finish(results):
+        return _l1_finish(results, dis, meta, vmeta)
+
+    return ["\n".join(text) + "\n"], finish
+
+
+def _l1_finish(results, dis, meta, vmeta):
+    ok, out = results[0]
     lists = vlib.parse_all_eval_lists(out)
     if not ok or len(lists) != 2:
         return dis + [{"name": "L1:pack-cases-file", "detail": out[-1500:]}]
